@@ -53,7 +53,25 @@ class L2(plumpy.Process):
         raise Boom('l2 fails')
 
 
-CLASSES = [L1, L2]
+class L3(plumpy.Process):
+    """finishes, but a hook that runs after the FINISHED state was entered fails: the process ends EXCEPTED"""
+    @classmethod
+    def define(cls, spec):
+        super().define(spec)
+        spec.input('x', valid_type=int, default=1)
+        spec.output('r', required=False)
+
+    def run(self):
+        RUNS.append(('L3', self.pid, 'run', self.inputs.x))
+        self.out('r', self.inputs.x)
+        return self.inputs.x
+
+    def on_finished(self):
+        super().on_finished()
+        raise Boom('l3 hook fails')
+
+
+CLASSES = [L1, L2, L3]
 
 
 class RecLoader(loaders.DefaultObjectLoader):
@@ -184,7 +202,7 @@ def _harness(pers, custom, with_ctx, via_comm, tasks):
                         raise Violation('reply_not_outputs', got=kind, **facts)
                 else:
                     inner = val
-                    if kind != 'error' or not (isinstance(inner, Boom) or 'Boom' in str(type(inner)) or 'l2 fails' in str(inner)):
+                    if kind != 'error' or not (isinstance(inner, Boom) or 'Boom' in str(type(inner)) or 'fails' in str(inner)):
                         raise Violation('reply_not_error', got=kind, err=type(val).__name__, **facts)
                 if custom and cname not in RecLoader.CALLS[calls_before:]:
                     raise Violation('configured_loader_not_used', **facts)
@@ -211,6 +229,8 @@ def _harness(pers, custom, with_ctx, via_comm, tasks):
                         raise Violation('reply_not_outputs', got=kind, **facts)
                 elif kind != 'error':
                     raise Violation('reply_not_error', got=kind, **facts)
+                if ci0 == 2:
+                    NOTES.witness('excepted_after_finished_entry')
                 if custom and not any(c.endswith(':' + CLASSES[ci0].__name__) for c in RecLoader.CALLS[calls_before:]):
                     raise Violation('configured_loader_not_used', on='continue', **facts)
                 NOTES.witness('continue')
@@ -229,8 +249,8 @@ def _harness(pers, custom, with_ctx, via_comm, tasks):
 def hist2(pers: int, custom: bool, with_ctx: bool, via_comm: bool, t0: int, p0: bool, n0: bool, c0: int, t1: int, p1: bool, n1: bool,
           g1: bool, c1: int, x: int):
     pe = pick(pers, 3)
-    tasks = [(pick(t0, 4), p0, n0, None, pick(c0, 2), x if pe != 2 else 7),
-             (pick(t1, 4), p1, n1, 't' if g1 else None, pick(c1, 2), x if pe != 2 else 7)]
+    tasks = [(pick(t0, 4), p0, n0, None, pick(c0, 3), x if pe != 2 else 7),
+             (pick(t1, 4), p1, n1, 't' if g1 else None, pick(c1, 3), x if pe != 2 else 7)]
     _harness(pe, custom, with_ctx, via_comm, tasks)
 
 
@@ -238,8 +258,8 @@ def hist3(pers: int, custom: bool, with_ctx: bool, via_comm: bool, t0: int, p0: 
           g1: bool, c1: int, t2: int, p2: bool, n2: bool, g2: bool, c2: int, x: int):
     pe = pick(pers, 3)
     xv = x if pe != 2 else 7
-    tasks = [(pick(t0, 4), p0, n0, None, pick(c0, 2), xv), (pick(t1, 4), p1, n1, 't' if g1 else None, pick(c1, 2), xv),
-             (pick(t2, 4), p2, n2, 't' if g2 else None, pick(c2, 2), xv)]
+    tasks = [(pick(t0, 4), p0, n0, None, pick(c0, 3), xv), (pick(t1, 4), p1, n1, 't' if g1 else None, pick(c1, 3), xv),
+             (pick(t2, 4), p2, n2, 't' if g2 else None, pick(c2, 3), xv)]
     _harness(pe, custom, with_ctx, via_comm, tasks)
 
 
@@ -264,7 +284,7 @@ def shards(tier):
 
 
 BOUNDS = {
-    'quick': dict(history='2 tasks over create/launch/continue/unknown with symbolic persist, nowait, tag, class (finishing / failing), input x symbolic int (concrete with the pickle persister)',
+    'quick': dict(history='2 tasks over create/launch/continue/unknown with symbolic persist, nowait, tag, class (finishing / failing step / failing on_finished hook after the FINISHED entry), input x symbolic int (concrete with the pickle persister)',
                   persister='none / in-memory / pickle', loader='default or recording custom loader, with and without an explicit load_context', transport='awaiting ProcessLauncher.__call__ directly and task_send through LoopCommunicator(LocalCommunicator)'),
     'thorough': dict(history='2 tasks as quick; 3 tasks where the third is a continue task (direct transport)', persister='as quick', loader='as quick', transport='as quick'),
 }
@@ -273,5 +293,5 @@ RULE = 'paths over (persister, loader, transport, task history with flags); non-
 SOLVER_ROLE = 'selector role for histories/flags (exhaustive), data role for the constructor input (reply == outputs compared symbolically)'
 EXPLANATION = 'per task: reply, what ran, persister content, rejection, which loader resolved the class'
 ASSUMPTIONS = ['continue targets the most recently created process id (or an unknown id if none exists)']
-REQUIRED_WITNESSES = ['rejected', 'create', 'launch', 'continue', 'continue_missing', 'custom_loader', 'via_communicator']
+REQUIRED_WITNESSES = ['rejected', 'create', 'launch', 'continue', 'continue_missing', 'custom_loader', 'via_communicator', 'excepted_after_finished_entry']
 LEVEL_TEXT = 'bounded exhaustive symbolic exploration of task histories against either persister, with/without custom loader, directly and through the loop-wrapped local communicator'
